@@ -30,31 +30,31 @@ CHECKS = {
          "Leaf bound 3/4; infinite streams judged on a bounded prefix only.",
          "4/C06"),
  "C07": ("exhaustive engine exploration, bounded liveness under a step budget (E4 + hook H2)",
-         "All disjunctions of 2-3 branches drawn from finite / infinitely producing / silently diverging scripted goals, in conde, binary Disj, nested conde and loop{} form and five positions: every answer a branch gives alone after s steps appears in the whole program within 64*2^(k*depth)*(s+1) engine steps.",
+         "All disjunctions of 2-3 (thorough 2-4) branches (also wrapped in dfs{} and as dfs{[branch, leaf]}) drawn from finite / infinitely producing / silently diverging scripted goals, in conde, binary Disj, nested conde and loop{} form and five positions: every answer a branch gives alone after s steps appears in the whole program within 64*2^(k*depth)*(s+1) engine steps.",
          "Fairness as bounded liveness; the step bound is part of the claim.",
          "4/C07"),
  "C08": ("exhaustive engine exploration of clause lists, committed-choice reference with engine-order differential (E4)",
-         "All conda/condu clause lists of 1-3 clauses and onceo bodies whose heads/rests are scripted (0/1/many answers, lazily produced, infinite, diverging) are compared with the soft-cut / committed-choice semantics; the head's first answer in engine order is obtained from the engine by running the head alone.",
+         "All conda/condu clause lists of 1-3 clauses and onceo bodies whose heads/rests are scripted (0/1/many answers, lazily produced, infinite, diverging) or the static Goal::succeed()/Goal::fail() objects are compared with the soft-cut / committed-choice semantics; the head's first answer in engine order is obtained from the engine by running the head alone.",
          "Heads are leaves or two-leaf conde/conj/disj trees; matcha/matchu share Conda/Condu::from_conjunctions (their surface form is covered by C13).",
          "4/C08"),
  "C09": ("E2 schedule exploration for determinism + bounded-liveness runs through the public iterator (E2 + E4)",
-         "(a)(b) every disjunction of 1-3 branches from finite goals, loop{} producers, loop{false} divergers, nested conde, producers behind closures, at top level / under fresh / after an always-like prefix / as binary Disj, through Query::run: take(n) delivers n answers within the step budget whenever n exist; finite programs end with exactly their answers and stay ended. (c) FD programs with >= 2 constraints, hidden-FD-variable programs and multi-binding disequality programs run twice unscheduled and under every schedule of all 8 hooked hash-iteration sites with <= d deviations plus all-reversed: identical canonical answer sequences.",
+         "(a)(b) every disjunction of 1-3 branches from finite goals, loop{} producers, loop{false} divergers, nested conde, producers behind closures, dfs{} blocks whose first goal diverges silently / rejects every candidate of an infinite producer / produces for ever, at top level / under fresh / after an always-like prefix / as binary Disj, through Query::run: take(n) delivers n answers within the step budget whenever n exist; finite programs end with exactly their answers and stay ended. (c) FD programs with >= 2 constraints, hidden-FD-variable programs and multi-binding disequality programs run twice unscheduled and under every schedule of all 8 hooked hash-iteration sites with <= d deviations plus all-reversed: identical canonical answer sequences.",
          "A second OS process is not steered; iteration orders are enumerated at the hooked sites instead (superset up to the deviation bound). d=1 quick / 2 thorough.",
          "4/C09"),
  "C10": ("bounded-exhaustive metamorphic comparison of combined vs separate branch runs x schedules (E3 x E2)",
-         "For 7 prefixes and every ordered pair (plus a stride of flat/nested triples) of 24 branch goals (bindings, disequalities, domain narrowing, FD propagators incl. distinctfd's shared constraint object, CLP(Z), user-state updates, nested conde, project, fail) the multiset of final states of `prefix, conde{A,B}` — reified terms, reported disequalities, per-branch user trail and open-constraint counter of an instrumented User — equals the union of the branches run alone.",
+         "For 7 prefixes and every ordered pair (plus a stride of flat/nested triples) of 24 branch goals, alone and followed by one of 4 shared continuations entered by the states of both branches, (bindings, disequalities, domain narrowing, FD propagators incl. distinctfd's shared constraint object, CLP(Z), user-state updates, nested conde, project, fail) the multiset of final states of `prefix, conde{A,B}` — reified terms, reported disequalities, per-branch user trail and open-constraint counter of an instrumented User — equals the union of the branches run alone.",
          "Differential oracle: judges isolation, not the correctness of each branch goal; d=0 quick / 1 thorough.",
          "4/C10"),
  "C11": ("bounded-exhaustive generator x body x nesting programs around project, differential against the body alone (E3)",
-         "7 generators reaching the project goal with 1..4 states x 7 bodies (relational reads, an fngoal inspecting the projected term, reads delayed behind closures and branching) x 4 nestings: for ground values `project |x| { body }` has the answers of `body` and never panics.",
+         "12 generators reaching the project goal with 1..4 states (incl. the projected variable aliased first and bound later, lists completed afterwards) x 7 bodies (relational reads, an fngoal inspecting the projected term, reads delayed behind closures and branching) x 7 nestings (four direct, three with the project goal behind a closure where multi-visit must work): for ground values `project |x| { body }` has the answers of `body` and never panics.",
          "Project goals are built as the macro builds them (names rebound to Projection terms once). One known finding (a project goal reached twice panics).",
          "4/C11"),
  "C12": ("bounded-exhaustive collections x bodies for `for`/everyg, differential against the explicit conjunction and the reference semantics (E3)",
-         "12 collections of 0..3 terms (ground, repeated, shared variables, nested) as Vec<LTerm> and as LTerm list x 12 bodies x 3 contexts: answers equal those of the explicit conjunction of instantiated bodies (instance-set multisets) and of the reference semantics; the empty collection behaves as true.",
+         "17 collections of 0..4 terms (ground, repeated in adjacent and non-adjacent positions, shared variables, nested) as Vec<LTerm> and as LTerm list x 16 bodies (incl. a choice on a fresh variable of the body, multi-answer relation calls) x 3 contexts: answers equal those of the explicit conjunction of instantiated bodies (instance-set multisets) and of the reference semantics; the empty collection behaves as true.",
          "The collection is fixed at goal construction (documented reading).",
          "4/C12"),
  "C13": ("bounded-exhaustive surface programs generated, compiled with the current macros and compared with a reference interpreter (E5)",
-         "match / matche / matcha / matchu expressions over a pattern alphabet (wildcard, names, repeated names, literals, [], proper/improper list patterns, tuple-struct / named-struct / nested compound patterns, a name equal to an outer variable) x matched terms x bodies as single arms, and two/three-arm expressions with alternatives under all four operators, emitted as Rust source, compiled against /repo's proc-macros, run, and compared with the reference expansion (arm-local fresh names; committed choice for matcha/matchu).",
+         "match / matche / matcha / matchu expressions over a pattern alphabet (wildcard, names, repeated names, literals, [], proper/improper list patterns, tuple-struct / named-struct / nested compound patterns, a name equal to an outer variable, alternatives binding different name sets) x matched terms x bodies as single arms, and two/three-arm expressions with alternatives under all four operators, emitted as Rust source, compiled against /repo's proc-macros, run, and compared with the reference expansion (arm-local fresh names; committed choice for matcha/matchu).",
          "Identifiers from a fixed name set; programs the Rust type system cannot express (compound pattern against a list subject) are not generated.",
          "4/C13"),
  "C14": ("bounded-exhaustive surface programs generated, compiled with the current macros and compared with a reference interpreter (E5)",
@@ -62,12 +62,12 @@ CHECKS = {
          "Shapes the surface cannot express on the pinned tree (closure nested in closure over the same variable, `for` bodies mentioning outer variables, negative literals) are not generated; see DESIGN.md.",
          "4/C14"),
  "C15": ("bounded-exhaustive surface programs and their alpha-renamed twins compiled with the current macros (E5)",
-         "Programs with shadowing (nested fresh clauses reusing a name, a fresh clause shadowing a query variable's name), equal names in sibling scopes, fresh clauses in conde arms and closures, pattern arms binding names of an enclosing fresh clause, and recursive relations whose unfoldings introduce equally named variables, each compiled as written and with every binder renamed to a unique name: both have the answers of the lexically scoped reference interpreter.",
+         "Programs with shadowing (nested fresh clauses reusing a name, a fresh clause shadowing a query variable's name), equal names in sibling scopes, fresh clauses in conde arms and closures, pattern arms binding names of an enclosing fresh clause, pattern arms shadowing their own scrutinee, and recursive relations whose unfoldings introduce equally named variables, each compiled as written and with every binder renamed to a unique name: both have the answers of the lexically scoped reference interpreter.",
          "Names from a fixed set; hygiene against arbitrary user identifiers is out of reach.",
          "4/C15"),
  "C16": ("bounded-exhaustive FD programs x deviation-bounded hash-order schedules vs brute force (E3 x E2)",
-         "Every program of three FD tiers (one constraint: all kinds x all operand patterns/aliasings/constants x all domain assignments x all statement orders; two-three constraints mixed with ==, pre-bound and fully ground operands; answers shaped as lists/compounds, hidden variables, conde) is run under every schedule of the hash-ordered iterations with <= d deviations plus all-reversed; every answer must be a brute-force solution.",
-         "Domains inside [-2, 3]; d=1 quick (T1) / 2; well-formed programs only (every FD operand has a domain or is an integer).",
+         "Every program of four FD tiers (T4: plusz/timesz over variables carrying finite domains; T2 incl. asymmetric domains around a distinctfd constant and one unification binding a chain of variables; T3 incl. hidden variables needing a joint labeling; one constraint: all kinds x all operand patterns/aliasings/constants x all domain assignments x all statement orders; two-three constraints mixed with ==, pre-bound and fully ground operands; answers shaped as lists/compounds, hidden variables, conde) is run under every schedule of the hash-ordered iterations with <= d deviations plus all-reversed; every answer must be a brute-force solution.",
+         "Domains inside [-2, 5]; d=1 quick (T1) / 2; well-formed programs only (every FD operand has a domain or is an integer).",
          "4/C16"),
  "C17": ("bounded-exhaustive FD programs x deviation-bounded hash-order schedules vs brute force (E3 x E2)",
          "Same programs and schedules as C16; the multiset of query-variable tuples must equal the brute-force solutions projected onto the query variables, each exactly once (including list-, improper-list- and compound-shaped answers and hidden FD variables).",
@@ -75,23 +75,23 @@ CHECKS = {
          "4/C16-C17"),
  "C18": ("explicit-state BFS over FiniteDomain representations, lock-step BTreeSet model (E1)",
          "Every representation reachable from all intervals / From<Vec> inputs / sparse sets of a small window (and of windows at the isize extremes) under all operations and all window predicates is compared with a BTreeSet model on every transition and every observer; exhaustive within the window.",
-         "Model is BTreeSet<i64>; window width 7 (quick) / 9 (thorough); full-width interval only through O(1) operations.",
+         "Model is BTreeSet<i64>; window width 9 (quick) / 11 (thorough); full-width interval only through O(1) operations.",
          "4/C18"),
  "C19": ("bounded-exhaustive CLP(Z) programs over all operand/groundness patterns and statement orders vs integer arithmetic (E3)",
-         "plusz/timesz x every operand pattern over three variables and {-2,0,1,3} (all aliasings) x every groundness pattern x every statement order, and chains of two constraints: answers equal the integer-arithmetic closure (ground equations hold; two ground operands determine the third, fail, or leave it constrained when every integer works); no panic.",
-         "Values in {-2,0,1,3}; aliased operands with fewer than two ground positions are judged for soundness only.",
+         "plusz/timesz x every operand pattern over three variables and {-3,-2,0,1,2,6} (thorough: 8 values; all aliasings) x every groundness pattern x every statement order, chains of two constraints, and constraints one of whose operands is unified with a partner variable by a separate == (both orientations, bound directly or through the partner): answers equal the integer-arithmetic closure (ground equations hold; two ground operands determine the third, fail, or leave it constrained when every integer works); no panic.",
+         "Values in {-3,-2,0,1,2,6} (thorough adds -4,-1); aliased operands with fewer than two ground positions are judged for soundness only.",
          "4/C19"),
  "C20": ("explicit-state BFS on compound terms and on their tagged-list twins + twin execution of reification/FD programs (E1 + E3)",
-         "(a) the C01 exploration over a universe with named, tuple-like, nested, recursive #[compound] structs, Rust tuples and Option, run on the compound terms and on the isomorphic tagged-list encoding, each transition against the reference unifier; (b) the C03 programs and the FD labeling programs with compound-shaped answers executed as written and with every constructor encoded as a tagged list: decoded answers (terms and reported constraints) coincide.",
-         "Option is read as the library converts it (None = [], Some(x) = x); compound values are built through the generated Rust types.",
+         "(a) the C01 exploration over a universe with named, tuple-like, nested, recursive #[compound] structs, Rust tuples, Option (top-level and as a field of a compound struct: Some / None as two structures of one type), run on the compound terms and on the isomorphic tagged-list encoding, each transition against the reference unifier; (b) the C03 programs and the FD labeling programs with compound-shaped answers executed as written and with every constructor encoded as a tagged list: decoded answers (terms and reported constraints) coincide.",
+         "A top-level Option is read as the library converts it (None = [], Some(x) = x); an Option field is a nested object; compound values are built through the generated Rust types.",
          "4/C20"),
  "C21": ("bounded-exhaustive term pairs and element sequences vs structural equality and a Vec model (E3)",
-         "Every ordered pair of a ~270-term universe (all literal kinds, variables and second constructions, [], proper/improper/nested lists, compounds): == equals structural equality with variable identity, symmetric, equal => equal hash under SipHash and a boundary-recording hasher; every element sequence of length 0..3 over 11 element values with and without 4 improper tails: constructors, iter / IntoIterator, Index, IndexMut, iter_mut, head/tail, predicates, contains, extend, Display against the Vec model.",
+         "Every ordered pair of a ~600-term universe (all literal kinds, variables and second constructions, [], proper/improper/nested lists, compounds): == equals structural equality with variable identity, symmetric, equal => equal hash under SipHash and a boundary-recording hasher; every element sequence of length 0..4 (thorough 0..5) over 11 element values with and without 4 improper tails: constructors, iter / IntoIterator, Index, IndexMut, iter_mut, head/tail, predicates, contains, extend, Display against the Vec model.",
          "Hash under two hashers; extend on proper lists only.",
          "4/C21"),
  "C22": ("bounded-exhaustive statement sequences with an instrumented User type and per-statement probes x schedules (E3 x E2)",
-         "All ordered sequences of 2-3 == / != statements (incl. subsuming and multi-binding disequalities), sequences with a two-arm conde, and FD programs run with a User type counting with_constraint/take_constraint and logging process_extension; probes before/after every statement and every answer state: with - take == stored constraints; each successful == triggers process_extension once with exactly unify_rec's new bindings; the statements seen by an answer's user state form one program path (per-branch cloning).",
-         "Statement alphabet of 10 tree + 7 FD statements; d=1 quick / 2 thorough on the store iteration sites.",
+         "All ordered sequences of 2-3 statements of a 14-statement == / != alphabet (incl. subsuming, chained and multi-binding disequalities), all 4-statement sequences of the first ten (thorough: of the whole alphabet, and all 5-statement sequences of the first eight), sequences with a two-arm conde, and FD programs run with a User type counting with_constraint/take_constraint and logging process_extension; probes before/after every statement and every answer state: with - take == stored constraints; each successful == triggers process_extension once with exactly unify_rec's new bindings; the statements seen by an answer's user state form one program path (per-branch cloning).",
+         "Statement alphabet of 14 tree + 7 FD statements; d=1 quick / 2 thorough on the store iteration sites.",
          "4/C22"),
  "C23": ("panic monitor re-running every family of the framework under catch_unwind (all explorers)",
          "Every generator of the framework (20 families: unification, disequality, reification, reordering, engine exploration, committed choice, iteration, isolation, project, for, FD tiers, CLP(Z), compound twins, LTerm API, user hooks, list relations, FiniteDomain) is re-run with its well-formedness filter; every panic other than the harness's step-budget signal is reported with its site; process aborts are attributed by the supervisor.",
